@@ -187,9 +187,21 @@ let () =
                 let a = parse_act acts in
                 let cb = script (nat_of_int k) a in
                 let go_ret = parse_ret rets in
-                (match priority_search pop_min q cb t with
+                (* the model runs Go's container/heap on entriesQueue (Model/RTreeHeap.v), so the visiting
+                   order among equal distances is Go's; populations above 1000 use the list-based
+                   minimum queue (the list-encoded heap is too slow there): distances only *)
+                let real_heap = n <= 1000 in
+                (match (if real_heap then priority_search_heap q cb t else priority_search pop_min q cb t) with
                  | None -> fail id "CORR" "prio_fuel" sid
                  | Some (mv, mret) ->
+                   if real_heap then begin
+                     count "prio_on_real_heap";
+                     let mids = List.map (fun it -> int_of_z it.iid) mv in
+                     (* tie order is not part of the property: a difference is a broken
+                        correspondence (CORR), the spec checks below still judge the trace *)
+                     if mids <> go_ids then
+                       fail id "CORR" "prio_sequence" (trunc (sid ^ " model=" ^ ints_str mids ^ " impl=" ^ idss))
+                   end;
                    if k < List.length mv then count ("prio_stopped_" ^ String.make 1 acts.[0]) else count "prio_full";
                    if dists q mv <> dists q go_vis then
                      fail id "CORR" "prio_distances" (trunc (sid ^ " model=" ^ ints_str (dists q mv) ^ " impl=" ^ ints_str (dists q go_vis)));
@@ -206,9 +218,12 @@ let () =
                 let go_r = match rets, go_vis with
                   | "found", [x] -> Some x
                   | _ -> None in
-                (match nearest pop_min t q with
+                (match (if n <= 1000 then nearest_heap t q else nearest pop_min t q) with
                  | None -> fail id "CORR" "nearest_fuel" sid
                  | Some mr ->
+                   (if n <= 1000 then
+                      let i = function None -> "none" | Some (x : item) -> string_of_int (int_of_z x.iid) in
+                      if i mr <> i go_r then fail id "CORR" "nearest_id" (sid ^ " model=" ^ i mr ^ " impl=" ^ i go_r));
                    let d = function None -> "none" | Some (x : item) -> string_of_int (int_of_z (sqdist x.ibox q)) in
                    if d mr <> d go_r then fail id "CORR" "nearest_distance" (sid ^ " model=" ^ d mr ^ " impl=" ^ d go_r));
                 if not (nearest_ok items q go_r) then
